@@ -246,6 +246,19 @@ func (r *reader) Position() (int, Segment) {
 
 func (r *reader) SetPosition(line int, pos Segment) {
 	r.lineOffset = -1
+	r.peekedLine = nil
+	if line != r.line {
+		// moved to another line: find the head of it
+		r.head = pos.Start
+		if r.head > r.sourceLength {
+			r.head = r.sourceLength
+		} else if r.head < 0 {
+			r.head = 0
+		}
+		for r.head > 0 && r.source[r.head-1] != '\n' {
+			r.head--
+		}
+	}
 	r.line = line
 	r.pos = pos
 }
